@@ -157,6 +157,15 @@ func decodeCredJWT(rawJWT string, unmarshaller JWTCredClaimsUnmarshaller) (jose.
 }
 
 func (jcc *JWTCredClaims) refineFromJWTClaims() {
+	// the token comes from another party: it may carry no registered claim at all, or no "vc" claim
+	if jcc.Claims == nil {
+		return
+	}
+
+	if jcc.VC == nil {
+		jcc.VC = map[string]interface{}{}
+	}
+
 	vcMap := jcc.VC
 	claims := jcc.Claims
 
